@@ -645,6 +645,12 @@ func ConvertTypedValueToYANGType(schemaElem *sdcpb.SchemaElem, tv *sdcpb.TypedVa
 			return tv, nil
 		case "string", "identityref":
 			return tv, nil
+		case "leafref":
+			// a leafref value carries the type of the leaf it refers to
+			if targetType := schemaElem.GetField().GetType().GetLeafrefTargetType(); targetType != nil {
+				return ConvertTypedValueToYANGType(&sdcpb.SchemaElem{Schema: &sdcpb.SchemaElem_Field{Field: &sdcpb.LeafSchema{Type: targetType}}}, tv)
+			}
+			return tv, nil
 		case "uint64", "uint32", "uint16", "uint8":
 			i, err := strconv.ParseUint(TypedValueToString(tv), 10, 64)
 			if err != nil {
